@@ -15,7 +15,9 @@ CHECKS = {
         text=("Proof of the kernel obligations K(C01): the real analysis.py functions (_used_vars, assigned_vars, "
               "liveness visit/do_visit/visit_block with both fixpoint loops, exposed_uses) are verified function by "
               "function against a gen/kill dataflow theory for ALL ASTs (structural induction, loop invariants), "
-              "which is what the faithfulness of If/Loop translation rests on; no bound on program size, nesting or names."),
+              "which is what the faithfulness of If/Loop translation rests on; no bound on program size, nesting or names; "
+              "_compute_constant_if_conditions. Bounded stand-ins: If/Loop translation alignment for every set-iteration order "
+              "(<= 3 live variables); eager Tensor.__getitem__ (C11)."),
         note=("Assumed: ONNX operator semantics at run time; _translate_expr per op; onnx_ir serde; _lhs_vars contract "
               "(body not verified); Python ast yields trees; termination of fixpoints; pyvc encoder and z3 trusted."),
         design="DESIGN.md section 4 C01"),
@@ -99,6 +101,93 @@ CHECKS["C15"] = dict(
     note=("Residual, not claimed: 'deserializing and re-serializing through onnxscript.ir loses no information' is a property of the onnx_ir "
           "package (onnxscript/ir/__init__.py re-exports it); protobuf Clear/CopyFrom semantics assumed."),
     design="DESIGN.md section 4 C15")
+
+CHECKS["C02"] = dict(
+    text=("Proof of the converter's naming and refusal kernel: Converter._generate_unique_name (loop invariant: result not in the set of "
+          "used names, set extended, counter monotone, for every set and candidate); nested-function parameters get names not used in any "
+          "enclosing scope; _translate_stmt dispatch (normal return only for supported statement kinds, return inside control flow and "
+          "unsupported statements raise with a source-positioned message, over a symbolic statement of every kind). Bounded stand-ins: "
+          "_translate_return_stmt (distinct output names, no graph input returned, <= 3 returned expressions with every aliasing) and "
+          "'every subgraph output is produced inside the subgraph' for If/Loop translation (<= 3 live variables)."),
+    note="Assumed: onnx.checker itself; onnx_ir serde; _emit contract (one node, outputs in order); _translate_expr per op.",
+    design="DESIGN.md section 4 C02 and 9")
+CHECKS["C03"] = dict(
+    text=("Kernel obligations of constant folding, on the real evaluators: cast/cast_like exactness, add (for operands of ANY length: records "
+          "only single-element sums, exact, keeps the non-negativity invariant of symbolic entries), FoldConstantsPass.call/visit plumbing; "
+          "bounded stand-ins with all values symbolic (ranks <= 2): reshape/expand -> Identity only if the target equals the runtime shape under "
+          "every binding, abs, gather, shape, size; process_node path contract (the reference evaluator is reached only behind every guard: "
+          "not Constant / control flow / non-deterministic, no graph-input operand, all operands constant, should_fold, blacklist, size gates)."),
+    note=("LARGE assumed part: onnx_ir common passes (inline, DCE, CSE, lift, dedup, NameFix) preserve semantics; onnx.reference computes what the "
+          "runtime computes; the default rewrite rules (C05); floating point; the pass pipeline as a whole. Not under contract: concat, dropout, "
+          "if_op, sequence evaluators, identity's backward shape inference."),
+    design="DESIGN.md section 4 C03 and 9")
+CHECKS["C04"] = dict(
+    text=("Proof of the C04 kernel: values that are graph inputs are never read as constants (_get_numpy_value, _get_bool_value, "
+          "OptimizerState.get_shape_value); _sym_value_can_replace_graph_output iff produced in this graph and not already an output; visit_graph "
+          "replaces an output only then and keeps its name, never writes graph inputs; _clear_unused_initializers drops an initializer iff unused "
+          "and not an output; NameFix iff modified; _update_opset_imports imports every used domain and raises on a version conflict; a new "
+          "initializer never replaces a different one of the same name. Exception freedom of gather / split_to_sequence / reshape / expand / "
+          "add / the Clip-Relu rules as bounded stand-ins."),
+    note="Assumed: onnx_ir passes total and valid; onnx.checker; evaluators not listed above.",
+    design="DESIGN.md section 4 C04 and 9")
+CHECKS["C05"] = dict(
+    text=("Rule-by-rule proof over the reals (element-level operator theory from the ONNX documentation) for the rules under contract: "
+          "FuseSuccessiveClip, FuseSuccessiveClipRelu, FuseSuccessiveReluClip (real check()/rewrite()/compute_clip_min_max/extract_min_max "
+          "executed symbolically for every present/absent combination of bounds; check succeeded ==> pattern = replacement for every x and "
+          "every bound); bounded stand-ins for the four Min/Max rules (1-2 constants per node, shapes in {(), (1,), (1,1), (3,)}: values proved, "
+          "shape preservation is a known finding) and, under C09, _remove_expand_before_binary_op. Pattern-constant tolerances of _no_op are "
+          "ground obligations (known findings). All other rules are NOT under contract (listed in the evidence)."),
+    note=("Assumed: operator theory T1 (validated against onnx.reference natively by the replays, not proved); floats as reals; C05 is decided "
+          "for the listed rules only — _basic_rules, _collapse_slices, _fuse_pad_into_conv, _fuse_batchnorm, matmul/gemm rules, rules.fusion, "
+          "_fuse_hardswish are not covered."),
+    design="DESIGN.md section 4 C05 and 9")
+CHECKS["C06"] = dict(
+    text=("Local contracts of the matcher: _match_constant (scalar): match iff a known scalar constant within the stated tolerance, for all "
+          "reals (proof). Bounded stand-ins with symbolic flags/names: _valid_to_replace (iff no external use / graph output of an intermediate "
+          "value), MatchResult bind/bind_value/bind_node/lookup_node/enter/abandon/merge (abandon restores exactly, merge loses nothing, "
+          "conflicts detected across partial matches), NodePattern.matches (iff op, domain and attribute patterns agree). The global "
+          "soundness+completeness of the recursive matcher follows on paper only (not machine-checked)."),
+    note="Assumed: math.isclose semantics over the reals; onnx_ir Value.uses/is_graph_output; the induction over patterns.",
+    design="DESIGN.md section 4 C06 and 9")
+CHECKS["C07"] = dict(
+    text=("Path contracts proved on _rewrite_rule.py: RewriteRule.try_rewrite (arity check, opset imports of container and main graph, matcher "
+          "told whether nodes are removed), _update_opset_imports (symbolic versions), RewriteRuleSet.apply_to_model (original functions only, "
+          "DCE iff a rule keeps nodes, NameFix iff count > 0); bounded stand-in for _apply_to_graph_or_function (2 nodes, 2 rules, subgraph "
+          "attribute, graph vs function container): one replace_nodes_and_values call per firing with exactly (match.nodes | [], new nodes, "
+          "matched outputs, new outputs), count, initializer registration, rule-name tag, visitors."),
+    note="Assumed: ir.convenience.replace_nodes_and_values / replace_all_uses_with do what their docstrings say (onnx_ir); as_function extraction (_copy_for_function) not under contract.",
+    design="DESIGN.md section 4 C07 and 9")
+CHECKS["C09"] = dict(
+    text=("For every binding of the symbolic dims and every dimension value: add on shape values of any length (proof); bounded stand-ins "
+          "(ranks <= 2, every dim kind static/named/unknown): reshape and expand become Identity only if the target equals the runtime shape, "
+          "abs only if every element is non-negative, gather/shape/size record exactly the indexed/sliced dims, and "
+          "_check_expand_removable (all three strategies) guarantees same output rank and dims with and without the Expand."),
+    note=("Assumed: shape annotations are sound for every accepted input (the property's stated assumption); ONNX broadcasting/Reshape/Expand "
+          "documentation; MaterializeReshapeShape, ReshapeReshape, Flatten2Reshape, collapse-slices and ScatterND rules not under contract."),
+    design="DESIGN.md section 4 C09 and 9")
+CHECKS["C13"] = dict(
+    text=("Proof (z3 string theory) that _cleanup_variable_name always returns a Python identifier that is not a keyword; ground obligations by "
+          "exhaustive evaluation: operator table of the exporter vs the converter's primop_map, onnx_type_to_onnxscript_repr -> eval -> "
+          "to_type_proto identity on every tensor element type x shape pattern, constant literals (nan/inf/negative/0-d/1-d) evaluate back; "
+          "bounded: _make_short_name_mapper injective/stable. Injectivity of clean-up is a known finding."),
+    note="Residual, not claimed: the emitted program text as a whole (_translate_graph/_translate_node formatting, If/Loop SSA undoing); exec-and-compare is outside this family.",
+    design="DESIGN.md section 4 C13 and 9")
+CHECKS["C14"] = dict(
+    text=("Proof of the state obligations: pattern_builder restores the module-global builder on normal and exceptional exit (exception "
+          "injected at the yield); Converter.__init__ copies the caller's globals; FoldConstantsPass.call resets per-run state; every "
+          "RewriteRuleClassBase subclass in rules.common/rules.fusion reads in rewrite() only fields that check() assigns on every successful "
+          "path (must-assign dataflow over the real source, following super().check). Bounded stand-in: If/Loop translation emits the same "
+          "structure for every set-iteration order (<= 3 live variables, every order of every set object)."),
+    note="Assumed: protobuf serialisation determinism; onnx_ir passes' own determinism; eager mode reading live module globals and numpy-array globals mutated in place are outside.",
+    design="DESIGN.md section 4 C14 and 9")
+CHECKS["C18"] = dict(
+    text=("Proof (string theory, symbolic names): _qualify_initializer_name/_qualify_value_name/_qualify_node_name build the dotted/slash path of "
+          "the non-empty scope names (stack depth <= 3); value and node names within one graph differ for different node counts; on a root -> "
+          "child -> parameter module tree with default names the initializer name equals root.name + '.' + state_dict key, is realised exactly "
+          "once in the root graph, idempotently, and the scope stack is balanced also when forward raises. Three known findings (subgraph "
+          "counters, explicitly named modules)."),
+    note="Residual: 'the graph computes the trace' needs runtime semantics; _inliner/onnx_ir Cloner, _inference, ModuleList/Sequential naming not under contract.",
+    design="DESIGN.md section 4 C18 and 9")
 
 NOT_APPLICABLE = {
     "C08": "oracle is PyTorch eager for ~550 ATen ops; no contract within reach can state it (DESIGN.md section 5)",
